@@ -18,6 +18,8 @@ struct BFut {
     polls: Arc<AtomicU32>,
     done_after: u32,
     waker: Arc<Mutex<Option<Waker>>>,
+    /// the future itself asks the loop to stop during its n-th poll
+    stop_in_poll: Option<(calloop::LoopSignal, u32)>,
 }
 
 impl Future for BFut {
@@ -26,6 +28,14 @@ impl Future for BFut {
         let n = self.polls.fetch_add(1, Ordering::SeqCst) + 1;
         hookrec::record(H_POLL, 1, n as u64);
         *self.waker.lock().unwrap() = Some(cx.waker().clone());
+        if let Some((sig, at)) = &self.stop_in_poll {
+            if n == *at {
+                hookrec::record(H_STOP_BEGIN, 1, 0);
+                sig.stop();
+                hookrec::record(H_STOP_END, 1, 0);
+                sig.wakeup();
+            }
+        }
         if n >= self.done_after {
             hookrec::record(H_READY, 1, n as u64);
             Poll::Ready(n)
@@ -36,13 +46,15 @@ impl Future for BFut {
 }
 
 /// state-based verdict on a hang: the loop thread sits in epoll_wait, the waking call has returned
-fn loop_parked(tid: i32) -> bool {
+fn loop_parked(tid: i32, epfd: i32) -> bool {
     if cfg!(miri) {
         return false;
     }
     let mut n = 0;
     for _ in 0..5 {
-        if sysx::in_epoll_wait(tid) {
+        // parked means: inside epoll_wait *and* no notification of the poller waiting to be consumed
+        // (a thread that has been woken but not scheduled yet also shows epoll_wait as its syscall)
+        if sysx::in_epoll_wait(tid) && sysx::poller_notify_pending(epfd) == Some(false) {
             n += 1;
         }
         std::thread::sleep(Duration::from_millis(100));
@@ -64,6 +76,7 @@ fn run_wakeups(c: &SchedCase) -> ExecOutcome {
     let mut o = ExecOutcome::default();
     let mut rng = Rng::derive(c.seed, c.case, 8);
     let mut el: EventLoop<u64> = EventLoop::try_new().expect("loop");
+    let epfd = std::os::fd::AsRawFd::as_raw_fd(&el);
     let sig = el.get_signal();
     let started = Arc::new(AtomicBool::new(false));
     let returned = Arc::new(AtomicBool::new(false));
@@ -104,7 +117,7 @@ fn run_wakeups(c: &SchedCase) -> ExecOutcome {
             if !cfg!(miri) {
                 std::thread::sleep(Duration::from_millis(60));
             }
-            let parked = loop_parked_quick(loop_tid);
+            let parked = loop_parked_quick(loop_tid, epfd);
             hookrec::record(H_QUIESCE, parked as u64, 0);
             hookrec::record(H_STOP_BEGIN, 0, 0);
             sig2.stop();
@@ -170,13 +183,13 @@ fn run_wakeups(c: &SchedCase) -> ExecOutcome {
 }
 
 /// three samples over 150 ms
-fn loop_parked_quick(tid: i32) -> bool {
+fn loop_parked_quick(tid: i32, epfd: i32) -> bool {
     if cfg!(miri) {
         return false;
     }
     let mut n = 0;
     for _ in 0..3 {
-        if sysx::in_epoll_wait(tid) {
+        if sysx::in_epoll_wait(tid) && sysx::poller_notify_pending(epfd) == Some(false) {
             n += 1;
         }
         std::thread::sleep(Duration::from_millis(50));
@@ -222,6 +235,7 @@ fn run_stop(c: &SchedCase) -> ExecOutcome {
     let mut rng = Rng::derive(c.seed, c.case, 6);
     let none_timeout = c.variant % 4 == 0;
     let mut el: EventLoop<u64> = EventLoop::try_new().expect("loop");
+    let epfd = std::os::fd::AsRawFd::as_raw_fd(&el);
     let sig = el.get_signal();
     let started = Arc::new(AtomicBool::new(false));
     let loop_tid = Arc::new(AtomicI32::new(sysx::gettid()));
@@ -238,6 +252,31 @@ fn run_stop(c: &SchedCase) -> ExecOutcome {
     let mut iters: u64 = 0;
     let mut all: Vec<Vec<Rec>> = Vec::new();
     let mut rescue = false;
+    if c.case % 3 == 1 {
+        // the loop has a history: a block_on that was ended by a stop request. The run() that follows must
+        // not inherit that request.
+        let sig0 = sig.clone();
+        let mut first = true;
+        let r = el.block_on(
+            std::future::poll_fn(move |_| {
+                if first {
+                    first = false;
+                    sig0.stop();
+                    sig0.wakeup();
+                }
+                std::task::Poll::<()>::Pending
+            }),
+            &mut iters,
+            |_| {},
+        );
+        if !matches!(r, Ok(None)) {
+            o.alarm("none_iff_stopped_first", "stopped-block_on-did-not-return-none", format!("a block_on whose future requested stop() returned {:?}", r.map(|x| x.is_some())));
+        }
+        o.cov("run-after-stopped-block_on");
+        // the ping that announces the start may have been consumed by that block_on: renew it
+        started.store(false, Ordering::SeqCst);
+        p.ping();
+    }
     std::thread::scope(|s| {
         let st = started.clone();
         let ret = returned.clone();
@@ -263,7 +302,7 @@ fn run_stop(c: &SchedCase) -> ExecOutcome {
             let mut verdict: Option<bool> = None;
             while !ret.load(Ordering::SeqCst) {
                 if t1.elapsed() > Duration::from_secs(4) {
-                    verdict = Some(loop_parked(ltid.load(Ordering::SeqCst)));
+                    verdict = Some(loop_parked(ltid.load(Ordering::SeqCst), epfd));
                     // rescue the run so that the process can go on
                     sig2.stop();
                     sig2.wakeup();
@@ -351,12 +390,15 @@ fn run_block_on(c: &SchedCase) -> ExecOutcome {
     let m = c.ops.max(1);
     let stop_instead = c.case % 3 == 0;
     let mut el: EventLoop<u64> = EventLoop::try_new().expect("loop");
+    let epfd = std::os::fd::AsRawFd::as_raw_fd(&el);
     let sig = el.get_signal();
     let polls = Arc::new(AtomicU32::new(0));
     let waker: Arc<Mutex<Option<Waker>>> = Arc::new(Mutex::new(None));
     let total_wakes = k * m;
     let done_after = if stop_instead { 1_000_000 } else { rng.range(1, total_wakes as u64 + 1) as u32 };
-    let fut = BFut { polls: polls.clone(), done_after, waker: waker.clone() };
+    // one case in four: the stop request comes from the future itself, during its first or second poll
+    let stop_from_poll = stop_instead && c.case % 4 == 0;
+    let fut = BFut { polls: polls.clone(), done_after, waker: waker.clone(), stop_in_poll: if stop_from_poll { Some((sig.clone(), 1 + (c.case / 4 % 2) as u32)) } else { None } };
     let seed = c.seed ^ c.case;
     let returned = Arc::new(AtomicBool::new(false));
     let loop_tid = sysx::gettid();
@@ -412,7 +454,7 @@ fn run_block_on(c: &SchedCase) -> ExecOutcome {
             if !cfg!(miri) {
                 std::thread::sleep(Duration::from_millis(3));
             }
-            if stop_instead {
+            if stop_instead && !stop_from_poll {
                 hookrec::record(H_STOP_BEGIN, 0, 0);
                 sig2.stop();
                 hookrec::record(H_STOP_END, 0, 0);
@@ -430,7 +472,7 @@ fn run_block_on(c: &SchedCase) -> ExecOutcome {
                 if !ret.load(Ordering::SeqCst) {
                     let mark = hookrec::record(H_QUIESCE, 2, 0);
                     let _ = mark;
-                    let parked = loop_parked_quick(loop_tid);
+                    let parked = loop_parked_quick(loop_tid, epfd);
                     hookrec::record(H_QUIESCE, parked as u64, 0);
                 }
             }
@@ -445,7 +487,7 @@ fn run_block_on(c: &SchedCase) -> ExecOutcome {
                     }
                 }
                 if t1.elapsed() > Duration::from_secs(6) {
-                    verdict = Some(loop_parked(loop_tid));
+                    verdict = Some(loop_parked(loop_tid, epfd));
                     sig2.stop();
                     sig2.wakeup();
                     break;
@@ -524,8 +566,15 @@ fn run_block_on(c: &SchedCase) -> ExecOutcome {
             let polled_after = recs.iter().any(|r| is_h(r, H_POLL) && r.seq > wb.seq && (r.seq < first_extra || !strict));
             let finished = ready.map(|r| r.seq < we.seq).unwrap_or(false);
             let stopped = stop_begin.is_some();
-            if !polled_after && !finished && !stopped {
+            let went_around = recs.iter().any(|r| r.tid == 0 && is_site(r, Site::WaitPost) && r.seq > wb.seq && recs.iter().any(|q| q.tid == 0 && is_site(q, Site::WaitPre) && q.seq > r.seq));
+            if !polled_after && !finished && !stopped && !went_around {
+                o.inconclusive.push(format!("wake {:#x} not followed by a poll, but the loop never left its wait after it (starved?)", wb.b));
+            }
+            if !polled_after && !finished && !stopped && went_around {
                 o.alarm("block_on_polls_after_wake", "wake-without-later-poll", format!("wake {:#x} returned but the future was never polled afterwards", wb.b));
+                if o.dump.is_empty() {
+                    o.dump = format_recs(&recs);
+                }
             }
         }
         // where did the wakes land relative to the block_on loop?
